@@ -281,6 +281,18 @@ func (h *H) scriptBinding(ai *AddrInfo, newStyle bool) []byte {
 	return s
 }
 
+// frozenPeriod: mostly short periods (so that stakes mature within a history), now and then one around
+// consensus.MASSIP0001MaxValidPeriod (1474560, the cap of the staking WEIGHT, which must not leak into the lock)
+// or near the top of the 32-bit range; such a stake never matures within a history, but its recorded maturity
+// (frozen period + 1) is part of every report and of the staking history.
+func (h *H) frozenPeriod() uint64 {
+	if h.R.Chance(12) {
+		big := []uint64{1474559, 1474560, 1474561, 1474562, 2949120, 1 << 31, 0xfffffffd, 0xfffffffe}
+		return big[h.R.Intn(len(big))]
+	}
+	return uint64(2 + h.R.Intn(5))
+}
+
 // randomPayee picks an output script; noBinding: the transaction spends a binding output,
 // consensus (checkParsePkScriptNew) then forbids binding outputs.
 func (h *H) randomPayee(noBinding bool) []byte {
@@ -298,7 +310,7 @@ func (h *H) randomPayee(noBinding bool) []byte {
 			}
 			switch k {
 			case 0:
-				return h.scriptStaking(ai, uint64(2+h.R.Intn(5)))
+				return h.scriptStaking(ai, h.frozenPeriod())
 			case 1:
 				return h.scriptBinding(ai, false)
 			default:
